@@ -474,7 +474,9 @@ impl<'a> Searcher<'a> {
                         .iter()
                         .map(|ordering_expr| {
                             let name = ordering_expr.to_string();
-                            match items.iter().find(|(field_name, _)| field_name.eq_ignore_ascii_case(&name)) {
+                            // (the texts spell columns and functions in one letter case already; what
+                            // differs in letter case there is a different literal)
+                            match items.iter().find(|(field_name, _)| field_name == &name) {
                                 Some((_, record)) => record.clone(),
                                 None => format!(
                                     "{}",
@@ -503,15 +505,11 @@ impl<'a> Searcher<'a> {
                     results.sort_by(|a, b| {
                         for idx in 0..ordering_fields.len() {
                             let (a, b) = (&a.1[idx], &b.1[idx]);
-                            let ord = match (numeric[idx], a.parse::<f64>(), b.parse::<f64>()) {
-                                (true, Ok(a), Ok(b)) => match a.partial_cmp(&b) {
-                                    Some(ord) => ord,
-                                    None => a.is_nan().cmp(&b.is_nan()),
-                                },
-                                // what is no number comes before the numbers
-                                (true, Ok(_), Err(_)) => Ordering::Greater,
-                                (true, Err(_), Ok(_)) => Ordering::Less,
-                                _ => a.cmp(b),
+                            // (numbers as the ungrouped ORDER BY ranks them: whole numbers exactly,
+                            // formatted sizes by their value, what is no number first)
+                            let ord = match numeric[idx] {
+                                true => crate::util::compare_numeric_keys(a, b),
+                                false => a.cmp(b),
                             };
                             if ord != Ordering::Equal {
                                 return if directions[idx] { ord } else { ord.reverse() };
